@@ -15,8 +15,91 @@ def packet_class(lf):
     return ','.join(parts)
 
 
+def parse_class(cls):
+    """'type=00,hdr=80-FF,cmd=15-FF' -> {'type': set, ...}"""
+    out = {}
+    for part in cls.split(','):
+        if '=' not in part:
+            continue
+        name, spec = part.split('=', 1)
+        if spec == 'any':
+            out[name] = set(range(256))
+            continue
+        vals = set()
+        for piece in spec.split(','):
+            if '-' in piece:
+                a, b = piece.split('-')
+                vals |= set(range(int(a, 16), int(b, 16) + 1))
+            elif piece:
+                vals.add(int(piece, 16))
+        out[name] = vals
+    return out
+
+
+def covering_known(key, known):
+    """A listed finding identifies a set of inputs (function + panic + class of header bytes). A failing leaf whose input
+    class lies inside the union of the listed classes of the same function and panic is the same finding (e.g. after two
+    match arms with the same body were merged); anything outside is new. Returns the listed key to report under, or None."""
+    if key in known:
+        return key
+    head, _, cls = key.rpartition(':')
+    mine = parse_class_full(cls)
+    if mine is None:
+        return None
+    cands = []
+    for k in known:
+        h, _, c = k.rpartition(':')
+        if h == head:
+            pc = parse_class_full(c)
+            if pc is not None:
+                cands.append((k, pc))
+    if not cands:
+        return None
+    # every field but `cmd` must agree with some candidate; the cmd values must be covered by the union over those
+    names = [n for n in mine if n != 'cmd']
+    compat = [(k, pc) for k, pc in cands if all(n in pc and mine[n] <= pc[n] for n in names) and set(pc) - {'cmd'} <= set(mine)]
+    if not compat:
+        return None
+    if 'cmd' in mine:
+        union = set()
+        for k, pc in compat:
+            union |= pc.get('cmd', set(range(256)))
+        if not mine['cmd'] <= union:
+            return None
+    return compat[0][0]
+
+
+def parse_class_full(cls):
+    if ';' in cls:
+        return None
+    # comma separates both fields and value lists: split on ',name='
+    import re as _re
+    parts = _re.split(r',(?=[a-z0-9]+=)', cls)
+    out = {}
+    for part in parts:
+        if '=' not in part:
+            return None
+        name, spec = part.split('=', 1)
+        vals = set()
+        if spec == 'any':
+            vals = set(range(256))
+        else:
+            for piece in spec.split(','):
+                try:
+                    if '-' in piece:
+                        a, b = piece.split('-')
+                        vals |= set(range(int(a, 16), int(b, 16) + 1))
+                    else:
+                        vals.add(int(piece, 16))
+                except ValueError:
+                    return None
+        out[name] = vals
+    return out
+
+
 def run(chk):
     an, prog = chk.an, chk.an.prog
+    known_c10 = load_known()[0].get(chk.pid, {})
     chk.explanation = (
         'decode_packet, get_length and process_packet are interpreted (dev profile: overflow and bounds assertions are '
         'explicit MIR Assert terminators) with a packet of free length (0 included) and free bytes. Every path ends in a '
@@ -50,7 +133,9 @@ def run(chk):
             construct = '%s:%s:%s:%s' % ('panic' if lf.kind == 'panic' else 'unanalysable', kind, msg, cls)
             what = 'the %s %s (%s: %s) in %s for inputs with %s' % (
                 human, 'panics' if lf.kind == 'panic' else 'cannot be analysed', kind, msg, fn.split('::')[-1], cls or '; '.join(guard_text(lf, na)[-3:]))
-            chk.ob('R-panic', '%s leaf %d' % (ent, i), False, chk.key(ent, 'R-panic', fn, construct), what,
+            key = chk.key(ent, 'R-panic', fn, construct)
+            key = covering_known(key, known_c10) or key
+            chk.ob('R-panic', '%s leaf %d' % (ent, i), False, key, what,
                    detail={'leaf': dump_leaf(lf, prog, na, heap=False), 'call_path': call_path(lf)}, site=sp)
-    chk.floor('leaves of the receive path', total, 250)
+    chk.floor('leaves of the receive path', total, 200)
     chk.extra['leaves_per_entry'] = dict((e, len(an.leaves(e)[0])) for e, _ in ENTRIES if e in an.entries)
